@@ -33,6 +33,8 @@ type Engine struct {
 	deadline   time.Time
 	traceCalls bool
 	traceInstr bool
+	siteStats  map[string]int
+	siteMu     sync.Mutex
 	solverKind string
 	solverTO   int
 	nworkers   int
